@@ -159,7 +159,7 @@ fn sharing_stmt(rng: &mut Rng, d2: bool) -> (String, &'static str) {
     let b = |rng: &mut Rng| format!("b{}", rng.below(4));
     let v = |rng: &mut Rng| format!("v{}", rng.below(2));
     let m = |rng: &mut Rng| format!("m{}", rng.below(2));
-    let k = rng.below(if d2 { 36 } else { 32 });
+    let k = rng.below(if d2 { 38 } else { 34 });
     match k {
         0 => (format!("{} {} bitstr-append ! {}", b(rng), bits_lit(rng), b(rng)), "append-literal"),
         1 => (format!("{} {} bitstr-append ! {}", b(rng), b(rng), b(rng)), "append-var"),
@@ -196,9 +196,15 @@ fn sharing_stmt(rng: &mut Rng, d2: bool) -> (String, &'static str) {
         29 => (format!("{} bits bitstr-not {} bits bitstr-append dup open-bitstr offset swap bitstr>hex 2 collect ! {} close-bitstr", 1 + rng.below(12), rng.below(12), v(rng)), "input-slices-mutated"),
         30 => (format!("[ {} {} {} ] >bitstr open-bitstr {} bits drop {} bits close-bitstr", rng.below(256), rng.below(256), rng.below(256), if rng.flip() { 0 } else { rng.below(13) }, 1 + rng.below(23)), "leave-stack-only-slice"),
         31 => (format!("depth 0 > if dup bitstr? if {} dup open-bitstr offset remain 2 collect ! {} close-bitstr then then", rng.pick(&["bitstr-not", "|A5| swap bitstr-append", "|x.x| swap bitstr-append", "dup bitstr-append"]), v(rng)), "mutate-top-of-stack"),
-        32 => (format!("{} {} d2-resize", rng.range(1, 6), rng.range(1, 6)), "d2-resize"),
-        33 => (format!("{} d2-color! {} {} d2-data!", rng.below(1 << 24), rng.below(3), rng.below(3)), "d2-data!"),
-        34 => ("d2-clear".to_string(), "d2-clear"),
+        32 => {
+            // a conversion that is refused part-way (nothing it did before may outlive it, in this or any other copy)
+            let bad = *rng.pick(&["300", "-1", "nil", "1.5", "{ 1 2 }"]);
+            (format!("[ 1 [ 2 [ {} ] ] {} ] >bitstr ! {}", bad, b(rng), b(rng)), "refused-nested-conversion")
+        }
+        33 => (format!("[ {} [ 1 [ \"ab\" [ {} ] ] ] {} ] >bitstr ! {}", b(rng), rng.below(256), rng.below(256), b(rng)), "nested-conversion"),
+        34 => (format!("{} {} d2-resize", rng.range(1, 6), rng.range(1, 6)), "d2-resize"),
+        35 => (format!("{} d2-color! {} {} d2-data!", rng.below(1 << 24), rng.below(3), rng.below(3)), "d2-data!"),
+        36 => ("d2-clear".to_string(), "d2-clear"),
         _ => (format!("[ 1 2 3 ] d2-palette! d2-width d2-height 0 0 d2-data 3 collect ! v{}", rng.below(2)), "d2-read"),
     }
 }
